@@ -375,19 +375,25 @@ class CookieJar(AbstractCookieJar):
                 cookie["path"] = path
             path = path.rstrip("/")
 
+            expire_time: float | None = None
             if max_age := cookie["max-age"]:
                 try:
                     delta_seconds = int(max_age)
-                    max_age_expiration = min(time.time() + delta_seconds, self.MAX_TIME)
-                    self._expire_cookie(max_age_expiration, domain, path, name)
+                    expire_time = min(time.time() + delta_seconds, self.MAX_TIME)
                 except ValueError:
                     cookie["max-age"] = ""
 
             elif expires := cookie["expires"]:
-                if expire_time := self._parse_date(expires):
-                    self._expire_cookie(expire_time, domain, path, name)
-                else:
+                expire_time = self._parse_date(expires) or None
+                if expire_time is None:
                     cookie["expires"] = ""
+
+            if expire_time is not None:
+                self._expire_cookie(expire_time, domain, path, name)
+            else:
+                # A session cookie replacing a persistent one must not
+                # inherit the old deadline.
+                self._expirations.pop((domain, path, name), None)
 
             key = (domain, path)
             # The flag belongs to this very cookie: a same-named cookie on
